@@ -37,7 +37,7 @@ func handTable(scaled []int64, whole int64) *gpbft.PowerTable {
 
 func TestCheck(t *testing.T) {
 	run := vkit.New("C08", "main", "exploration")
-	run.SetRule("(A) exhaustive sweep of all (part, whole) with 0<=part<=whole<=65535 through gpbft.IsStrongQuorum and the weak-quorum predicate against exact integer arithmetic, plus per-whole derived intersection lemmas; (B) int64 overflow characterisation (logged only); (C) could-reach / tally verdicts of the real quorum state fed votes of known weight: all (whole<=W, support<=voted<=whole) triples + random triples up to 65535; (D) random big-integer power tables through PowerEntries.Scaled and PowerTable.Add; (E) boundary signer sets through tally, message validator and certificate validator. distinct = distinct (component, input) cases; non-trivial = every case (each is a different input)")
+	run.SetRule("(A) exhaustive sweep of all (part, whole) with 0<=part<=whole<=65535 through gpbft.IsStrongQuorum and the weak-quorum predicate against exact integer arithmetic, plus per-whole derived intersection lemmas; (B) sampled int64 totals of every magnitude up to 2^62 with random and two-thirds-boundary weights, judged against exact arithmetic (the region from 2^62 on, where 2*whole overflows, is characterised only); (C) could-reach / tally verdicts of the real quorum state fed votes of known weight: all (whole<=W, support<=voted<=whole) triples + random triples up to 65535; (D) random big-integer power tables through PowerEntries.Scaled and PowerTable.Add; (E) boundary signer sets through tally, message validator and certificate validator. distinct = distinct (component, input) cases; non-trivial = every case (each is a different input)")
 	run.Assume("exact rational arithmetic in int64/math/big is the oracle", "weak-quorum and could-reach predicates are reached through a verif-tagged accessor (expose only)")
 	run.SetExhaustive(true)
 
@@ -131,23 +131,52 @@ func sweepA(run *vkit.Run) {
 	run.Sample(map[string]any{"component": "sweep", "whole": 65535, "min_strong": (2*65535 + 2) / 3, "note": "every pair 0<=part<=whole<=65535 evaluated"})
 }
 
-// ---------- B: overflow characterisation (informational) ----------
+// ---------- B: larger int64 values ----------
+// The statement's quantifier includes "sampled larger int64 values for overflow". Below 2^62 the
+// doubling 2*whole fits an int64, so the predicate has to be exact there: a disagreement with exact
+// arithmetic is a violation. From 2^62 on 2*whole itself overflows; that region is characterised only.
 func overflowB(run *vkit.Run) {
 	rng := rand.New(rand.NewSource(run.SubSeed(1001)))
-	dis := int64(0)
+	dis, viol := int64(0), int64(0)
 	n := run.N(200000, 5000000)
-	for i := 0; i < n; i++ {
-		whole := rng.Int63n(1 << 62)
-		part := rng.Int63n(whole + 1)
-		s := gpbft.IsStrongQuorum(part, whole)
-		ref := new(big.Int).Mul(big.NewInt(part), big.NewInt(3)).Cmp(new(big.Int).Mul(big.NewInt(whole), big.NewInt(2))) >= 0
-		if s != ref {
-			dis++
+	exact := func(part, whole int64) bool {
+		return new(big.Int).Mul(big.NewInt(part), big.NewInt(3)).Cmp(new(big.Int).Mul(big.NewInt(whole), big.NewInt(2))) >= 0
+	}
+	check := func(part, whole int64) {
+		if part < 0 || part > whole {
+			return
+		}
+		if s := gpbft.IsStrongQuorum(part, whole); s != exact(part, whole) {
+			if whole < 1<<62 {
+				viol++
+				if viol <= 3 {
+					run.Violation(fmt.Sprintf("C08 IsStrongQuorum disagrees with 3*part>=2*whole for int64 values below 2^62 (verdict %v)", s), map[string]any{"part": part, "whole": whole})
+				}
+			} else {
+				dis++
+			}
 		}
 	}
-	run.Eval(int64(n))
-	run.Count("overflow_samples_up_to_2^62", int64(n))
-	run.Count("overflow_disagreements_outside_reachable_domain(info)", dis)
+	for i := 0; i < n; i++ {
+		whole := rng.Int63n(1 << 62)
+		if i%4 == 0 {
+			whole = rng.Int63n(1 << uint(17+rng.Intn(45))) // every magnitude between 2^17 and 2^62
+		}
+		check(rng.Int63n(whole+1), whole)
+		// the two-thirds boundary of that total
+		q := new(big.Int).Div(new(big.Int).Add(new(big.Int).Mul(big.NewInt(whole), big.NewInt(2)), big.NewInt(2)), big.NewInt(3)).Int64()
+		for d := int64(-2); d <= 2; d++ {
+			check(q+d, whole)
+		}
+	}
+	for i := 0; i < n/20; i++ { // characterisation of the region where 2*whole overflows
+		whole := 1<<62 + rng.Int63n(1<<62)
+		check(rng.Int63n(whole), whole)
+	}
+	run.Eval(int64(n) * 6)
+	run.Count("large_value_samples_below_2^62", int64(n)*6)
+	run.Count("large_value_disagreements_below_2^62", viol)
+	run.Count("overflow_disagreements_at_or_above_2^62(info)", dis)
 }
 
 // ---------- C: could-reach and tally verdicts ----------
